@@ -160,8 +160,12 @@ def run_twin(case, compare_sections=('params', 'rg', 'flags', 'grads'), probe_fo
             if any(p.grad is not None for p in S.model.parameters()):
                 bump('crashpoint_with_pending_grads')
             try:
+                torch.manual_seed(torch_seed(run_seed, 'rebuild-prologue', idx))
                 res, fresh_sd, saved_sd = S.crash_restart(torch_seed(run_seed, 'rebuild', idx),
-                                                          stale_example=op.get('stale_example', False))
+                                                          stale_example=op.get('stale_example', False),
+                                                          prologue=op.get('prologue', ()))
+                if op.get('prologue'):
+                    bump('fault_restart_with_script_prologue')
             except Exception as e:
                 fail('restoring the checkpoint into a freshly constructed wrapper raised', 'restore-raises',
                      f'{type(e).__name__}: {str(e)[:300]}', 'restart')
